@@ -132,8 +132,12 @@ func derive3(r recipe3) *objects3 {
 	o.inset = model3d.NewColliderSolidInset(o.coll, 0.05)
 	o.hollow = model3d.NewColliderSolidHollow(o.coll, 0.07)
 	if len(h.ptrs) > 0 {
-		o.sdf = model3d.MeshToSDF(h.m)
 		if !h.degen {
+			// faces with a repeated vertex have no defined closest point / normal (the library's distance
+			// queries divide by the edge length: NaN distances, and a mesh made only of such faces has no
+			// nearest face at all, so NormalSDF dereferences nil -- sequentially as well; every caller feeds
+			// MeshToSDF proper faces).  Their sdf.* / interp.* queries fall back to coll.ray.
+			o.sdf = model3d.MeshToSDF(h.m)
 			o.interp = model3d.MeshToInterpNormalCollider(h.m)
 		}
 		mat := &render3d.LambertMaterial{DiffuseColor: render3d.NewColorRGB(0.2, 0.5, 0.9), AmbientColor: render3d.NewColor(0.1)}
@@ -316,6 +320,9 @@ func checkDerived(c derivedCase, o *kit.Obs) error {
 	for _, p := range c.Mesh.Parts {
 		o.Label("part:" + p.Kind)
 	}
+	if objs.h.degen {
+		o.Label("degenerate-faces(no sdf)")
+	}
 	if objs.hier != nil {
 		o.Label("with-hierarchy")
 	}
@@ -424,7 +431,11 @@ func derive2(r recipe2) *objects2 {
 		o.solid = model2d.NewColliderSolid(o.coll)
 		o.inset = model2d.NewColliderSolidInset(o.coll, 0.05)
 		o.hollow = model2d.NewColliderSolidHollow(o.coll, 0.07)
-		o.sdf = model2d.MeshToSDF(h.m)
+		if !h.degen {
+			// zero-length segments: see derive3 (Segment.Closest divides by the length; a mesh of nothing
+			// but such segments makes meshSDF.NormalSDF dereference a nil face, with or without goroutines)
+			o.sdf = model2d.MeshToSDF(h.m)
+		}
 	}
 	if r.nested() && h.m.Manifold() {
 		o.hier = model2d.MeshToHierarchy(h.m)
@@ -522,6 +533,9 @@ func checkDerived2(c derived2Case, o *kit.Obs) error {
 	objs := derive2(c.Mesh)
 	for _, p := range c.Mesh.Parts {
 		o.Label("part:" + p.Kind)
+	}
+	if objs.h.degen {
+		o.Label("degenerate-faces(no sdf)")
 	}
 	if objs.hier != nil {
 		o.Label("with-hierarchy")
